@@ -183,6 +183,41 @@ func TestC18(t *testing.T) {
 			fail("Accept metadata: protocol %x dc %d, want %x / %d", md.Protocol, md.DC, c.tag, uint16(c.dc))
 		}
 
+		// a neighbour: another obfuscated2 connection of the same process (own
+		// keys, own pipe) that writes while a write of this connection is under
+		// way in its transport - in every Write of the client's or the server's
+		// end, before the bytes are taken over
+		neighbour := rapid.Bool().Draw(t, "neighbourConnection")
+		var nbSent []byte
+		var nbServer io.Reader
+		if neighbour {
+			nbData := pbt.DrawBytes(t, "neighbourData", rapid.SampledFrom([]int{1, 16, 64, 600, 5000}).Draw(t, "neighbourWriteLen"))
+			nEndC, nEndS, _, _ := seqPair(nil, nil)
+			nrnd, _ := pbt.DrawStream(t, "neighbourRand")
+			nClient := obfuscated2.NewObfuscated2(nrnd, nEndC)
+			if err := nClient.Handshake(c.tag, c.dc+1, mtproxy.Secret{Secret: c.secret, Type: mtproxy.Simple}); err != nil {
+				fail("neighbour Handshake: %v", err)
+			}
+			nSrv, _, err := obfuscated2.Accept(nEndS, c.secret)
+			if err != nil {
+				fail("neighbour Accept: %v", err)
+			}
+			nbServer = nSrv
+			busy := false
+			hook := func() {
+				if busy || len(nbSent) > 1<<20 {
+					return
+				}
+				busy = true
+				defer func() { busy = false }()
+				if _, err := nClient.Write(nbData); err != nil {
+					fail("neighbour Write: %v", err)
+				}
+				nbSent = append(nbSent, nbData...)
+			}
+			clientEnd.onWrite, serverEnd.onWrite = hook, hook
+		}
+
 		// data, both directions; reads use buffers of drawn sizes over a
 		// transport that returns drawn chunk sizes
 		xfer := func(dir string, w io.Writer, r io.Reader, data []byte, sizes []int) {
@@ -231,6 +266,13 @@ func TestC18(t *testing.T) {
 			}
 		}
 
+		if neighbour {
+			got, err := readExactly(nbServer, len(nbSent), []int{4096})
+			if err != nil || !bytes.Equal(got, nbSent) {
+				fail("neighbour connection: %d bytes written (during this connection's writes), read back err=%v differs at %d", len(nbSent), err, firstDiff(got, nbSent))
+			}
+		}
+
 		// the wire, by the reference key schedule
 		tag, dc, plainUp, ok := ref.Obf2Open(c2s.buf, c.secret)
 		if !ok {
@@ -261,6 +303,9 @@ func TestC18(t *testing.T) {
 		}
 		if c.nReserved > 0 {
 			cls = append(cls, "rand:reserved-prefix-blocks")
+		}
+		if neighbour && len(nbSent) > 0 {
+			cls = append(cls, "neighbour-connection-writes-meanwhile")
 		}
 		if upN > 0 && downN > 0 {
 			cls = append(cls, "data-both-directions")
